@@ -64,6 +64,43 @@ def generate(ctx, mode, dims, maxfaults, vals, sample=None, maxops=2):
     return out
 
 
+def big_cfg(depth, batch, modes, maxops=2, maxfaults=1, vals=("a",), mutant="none"):
+    return ("SPECIFICATION Spec\nCONSTANTS FieldMode = \"bn254\"\nP = 7\nHashMode = \"sym\"\nDepth = %d\nBatch = %d\nVals = {%s}\nMaxOps = %d\nModes = {%s}\nMaxFaults = %d\n"
+            "Mutant = \"%s\"\nINVARIANTS Export\nCHECK_DEADLOCK FALSE\n" % (depth, batch, ", ".join('"%s"' % v for v in vals), maxops, ", ".join('"%s"' % m for m in modes), maxfaults, mutant))
+
+
+def generate_big(ctx, mode, dims, sample):
+    """Production-scale behaviours (MTBBig.tla: depth up to 32, real 2^32 / r bounds, sparse trees): honest prefix + one batch with <= 1 deviation;
+    TLC evaluates the circuit relation and the abstract meaning on each and asserts they agree."""
+    out = []
+    for d, b in dims:
+        modes = [mode] if d > 31 else ["insertion", "deletion"]        # deletion circuits deeper than 31 do not exist
+        r = ctx.tlc("MTBBig", big_cfg(d, b, modes), label="MTBBig gen depth=%d batch=%d" % (d, b), timeout=3000, heap="24g")
+        beh = [t for t in r["traces"] if t["ops"] and t["ops"][-1]["batch"]["mode"] == mode]
+        if not beh:
+            raise Infra("no big behaviours for %s depth=%d" % (mode, d))
+        rr = rng(ctx.seed, "mtbbig/%s/%d/%d" % (mode, d, b))
+        rr.shuffle(beh)
+        classes = {}
+        for t in beh:
+            op = t["ops"][-1]
+            sig = json.dumps([op["batch"]["start"], [[s_["idx"], s_["dev"], s_["item"] == "E0"] for s_ in op["batch"]["slots"]], op["postdev"], op["accept"]])
+            classes.setdefault(sig, []).append(t)
+        per = max(1, sample // max(1, len(classes)))
+        pick = []
+        for sig in sorted(classes):
+            pick += classes[sig][:per]
+        if len(pick) > sample:
+            accp = [t for t in pick if t["ops"][-1]["accept"]]
+            rej = [t for t in pick if not t["ops"][-1]["accept"]]
+            pick = accp[:sample // 3] + rej[:sample - min(len(accp), sample // 3)]
+        ctx.cov.setdefault("deviation_classes", {})["%s BIG d=%d b=%d" % (mode, d, b)] = len(classes)
+        out += pick
+    for mut in (("widepath",) if mode == "insertion" else ("nomember",)):
+        ctx.expect_mutant_violates("MTBBig", big_cfg(31, 1, ["insertion", "deletion"], mutant=mut), "MTBBig mutant %s at depth 31" % mut, timeout=900)
+    return out
+
+
 def replay(ctx, pid, mode, behaviours, r1cs_share, nproc=12):
     """Replay the LAST batch of each behaviour (the tested one; the prefix is implied by its terms)."""
     rr = rng(ctx.seed, "mtb-r1cs")
